@@ -102,4 +102,26 @@ def c12h(tier, seed):
                                      "these worlds; it cannot be instantiated over HeterEventQueue (library limitation)"]}
 
 
+def c09h(tier, seed):
+    """Throwing listeners over the heterogeneous classes (the part of C09 anchored in hetercallbacklist.h / hetereventqueue.h)."""
+    quick = tier == "quick"
+    direct = {"module": "HetGen", "tag": "throw-direct", "invariants": HINV + ["CtrLeft"],
+              "constants": hconsts(cbs=3, enq=0, inv=2 if quick else 3, ops={"al", "pl", "il", "rl", "iv", "ac"}, cbshapes=(2, 9) if quick else (2, 6, 9),
+                                   argshapes=(2,) if quick else (2, 6), predshapes=(), counts=(2,))}
+    queued = {"module": "HetGen", "tag": "throw-queued", "invariants": HINV + ["CtrLeft"],
+              "constants": hconsts(cbs=2, enq=3, inv=0, ops={"al", "pl", "rl", "nq", "pa", "po", "pi", "ac"}, cbshapes=(2, 9) if quick else (2, 8, 9),
+                                   argshapes=(2, 4) if quick else (2, 4, 6), predshapes=(2, 6), counts=(2,))}
+    worlds = [hworld("hx_list_single", 0, threading=0, only_tags=["throw-direct"]),
+              hworld("hx_disp_multi", 1, threading=1, only_tags=["throw-direct"], fraction=0.5, fill="0xFF"),
+              hworld("hx_queue_multi", 2, threading=1, only_tags=["throw-queued"]),
+              hworld("hx_queue_spin", 2, threading=2, only_tags=["throw-queued"], fraction=0.3, fill="0x00")]
+    return {"interp": "harness/het_interp.cpp", "trace_module": "TraceHet", "models": [direct, queued], "worlds": worlds,
+            "nontrivial_key": "scripts", "level": "fault_enumeration",
+            "rule": "every transition of the bounded HetGen reference model with listeners that throw (next to plain, self-removing and enqueuing ones) over "
+                    "HeterCallbackList / HeterEventDispatcher / HeterEventQueue: the exception leaves the invocation, dispatch, process, processOne or processIf "
+                    "call at every position of every bounded history; TraceHet demands that nothing of that call runs afterwards, that the lists are as the "
+                    "callbacks left them, that a processing call discards exactly the events it had taken, and that emptyQueue() is right afterwards",
+            "assumptions": ASSUME}
+
+
 PLANS = {"C14": c14}
